@@ -80,6 +80,23 @@ def add_unresolvable_imports(rng, pkg: pg.Pkg) -> None:
             m.decls.append(pg.Fn(f"takes_widget_{i}", [pg.Param("w", w), pg.Param("n", "int")], "None"))
 
 
+def add_typevars(rng, pkg: pg.Pkg) -> None:
+    """The same type-variable names in many modules: generic classes in some, generic methods of plain classes and
+    generic functions in others (per-class and per-module generator state must not leak between modules)."""
+    for i, m in enumerate(pkg.modules):
+        r = rng.random()
+        if r < 0.25:
+            continue
+        m.imports.append("from typing import Generic, TypeVar")
+        src = ['\nT = TypeVar("T")\nU = TypeVar("U")\n\n']
+        if r < 0.55:
+            src.append(f"\nclass GenericBox{i}(Generic[T]):\n    def put(self, item: T) -> T: ...\n\n    def both(self, a: T, b: U) -> U: ...\n\n")
+        else:
+            src.append(f"\nclass PlainPicker{i}:\n    def pick(self, first: T, second: T) -> T: ...\n\n    def other(self, x: U) -> U: ...\n\n")
+        src.append(f"\ndef generic_fn{i}(a: T, b: list[U]) -> T: ...\n")
+        m.extra += "".join(src)
+
+
 def make_variants(rng, base: pg.Pkg, m: pg.Mod):
     """(variant name, package) pairs that differ from ``base`` outside the cone of ``m`` only."""
     co = cone(base, m)
@@ -117,7 +134,7 @@ def make_variants(rng, base: pg.Pkg, m: pg.Mod):
     for tag, nm in (("before", m.name[:-1] + chr(max(ord(m.name[-1]) - 1, 48)) + "zz"), ("after", m.name + "_zz")):
         if nm.isidentifier() and not any(y.pkg == m.pkg and y.name == nm for y in base.modules):
             p = copy.deepcopy(base)
-            nb = pg.Mod(m.pkg, nm, imports=["from pathlib import PurePosixPath"], decls=[
+            nb = pg.Mod(m.pkg, nm, imports=["from pathlib import PurePosixPath", "from typing import Generic, TypeVar"], extra='\nT = TypeVar("T")\nU = TypeVar("U")\n\n\nclass NeighbourBox(Generic[T, U]):\n    def put(self, a: T, b: U) -> T: ...\n', decls=[
                 pg.Cls("NeighbourClass", methods=[pg.Fn("nb_method", [pg.Param("a", "PurePosixPath"), pg.Param("rest", "int", None, "va")], None, role="inst")]),
                 pg.Fn("neighbour_fn", [pg.Param("a", "NeighbourClass"), pg.Param("b", "set[int]")], "tuple[int, str]"),
             ])
@@ -173,6 +190,7 @@ def gen(tier: str, seed: int):
         pg.assign_cross_refs(rng, base, allowed, 0.5)
         c11.add_public_inheritance(rng, base)
         add_unresolvable_imports(rng, base)
+        add_typevars(rng, base)
         public_mods = [m for m in base.modules if not any(pg.is_private_name(s) for s in (*m.pkg, m.name))]
         if not public_mods:
             continue
